@@ -13,6 +13,9 @@ real mode (values in `α` with `[R α]`):
                 the translator binds the LAST return in ast.walk order, which is the nested one; the
                 non-negative branch is the hand model Model.C17.dec2decPosHand)
   ra2dec     -> ra2decScale (the factor 15)
+  dec2dec    -> dec2decPos too (slice dec2dec__pos: the function without its `if negative: return` statement)
+  dec2dms    -> dmsScaled   the quantity that is rounded, abs(float(x)) * 360000  (slice dec2dms__scaled)
+  dec2hms    -> hmsScaled   float(x) * 24000; hmsWrapZ (int mode, Int): k % 8640000 (slice dec2hms__wrap)
 int mode (Nat):
   dec2dms    -> dmsD, dmsM, dmsCs   as functions of n = hundredths of an arcsecond
   dec2hms    -> hmsH, hmsM, hmsCs   as functions of n = hundredths of a second of time (after wrap)
@@ -45,6 +48,72 @@ def _fb(name, params, hand, ty='α'):
 # left alone and the target is then UNTRANSLATABLE -> hand fallback); if any step is not clearly applicable the
 # function is left exactly as it is.  The tree is $AEGEAN_REPO (default /repo), as for every caller of generate().
 # ---------------------------------------------------------------------------------------------------------------
+def _extra_slices(ast, copy, funcs):
+    """Synthesised slice functions appended to the normalised module (each only when its shape is recognised without
+    doubt; a missing slice makes its target UNTRANSLATABLE -> hand fallback):
+      dec2dec__pos(dec)     dec2dec without the `if <negative>: return …` statement: its last return is the branch for
+                            non-negative angles (the stock translator binds only the nested, negative, return);
+      dec2dms__scaled(x)    the argument of the single round(...) call of dec2dms  (abs(float(x)) * 360000);
+      dec2hms__scaled(x)    the same for dec2hms                                    (float(x) * 24000);
+      dec2hms__wrap(k)      `k % M` where the source has  int(round(...)) % M  with a constant M."""
+    out = []
+
+    def fdef(name, params, body):
+        return ast.FunctionDef(name=name, args=ast.arguments(posonlyargs=[], args=[ast.arg(arg=p) for p in params], kwonlyargs=[],
+                                                              kw_defaults=[], defaults=[]), body=body, decorator_list=[], type_params=[])
+
+    def assigned_names(fn):
+        names = set()
+        for n in ast.walk(fn):
+            if isinstance(n, (ast.Assign, ast.AugAssign, ast.AnnAssign)):
+                for t in (n.targets if isinstance(n, ast.Assign) else [n.target]):
+                    names |= {m.id for m in ast.walk(t) if isinstance(m, ast.Name)}
+        return names
+
+    # --- dec2dec, branch for non-negative angles
+    fn = funcs.get('dec2dec')
+    if fn is not None:
+        ifs = [st for st in fn.body if isinstance(st, ast.If) and st.body and isinstance(st.body[-1], ast.Return) and not st.orelse
+               and any(isinstance(n, ast.Return) for n in st.body)]
+        ret_ifs = [st for st in ifs if len(st.body) == 1]
+        if len(ret_ifs) == 1 and isinstance(fn.body[-1], ast.Return) and fn.body.index(ret_ifs[0]) == len(fn.body) - 2:
+            g = copy.deepcopy(fn)
+            g.name = 'dec2dec__pos'
+            g.body = [st for st in g.body if not (isinstance(st, ast.If) and ast.dump(st) == ast.dump(ret_ifs[0]))]
+            out.append(g)
+
+    # --- the quantity that is rounded, and the wrap
+    for name in ('dec2dms', 'dec2hms'):
+        fn = funcs.get(name)
+        if fn is None or len(fn.args.args) != 1:
+            continue
+        par = fn.args.args[0].arg
+        if par in assigned_names(fn):            # the parameter is rebound somewhere: the slice would not mean what it says
+            continue
+        rounds = [n for n in ast.walk(fn) if isinstance(n, ast.Call) and isinstance(n.func, ast.Name) and n.func.id == 'round'
+                  and len(n.args) == 1 and not n.keywords]
+        if len(rounds) != 1:
+            continue
+        e = rounds[0].args[0]
+        free = {n.id for n in ast.walk(e) if isinstance(n, ast.Name)}
+        if free <= {par, 'abs', 'float'}:
+            out.append(fdef(name + '__scaled', [par],
+                            [ast.Assign(targets=[ast.Name(id='scaled', ctx=ast.Store())], value=copy.deepcopy(e)),
+                             ast.Return(value=ast.Name(id='scaled', ctx=ast.Load()))]))
+        if name == 'dec2hms':
+            def is_rounded_int(x):
+                return x is rounds[0] or (isinstance(x, ast.Call) and isinstance(x.func, ast.Name) and x.func.id == 'int'
+                                          and len(x.args) == 1 and x.args[0] is rounds[0])
+            mods = [n for n in ast.walk(fn) if isinstance(n, ast.BinOp) and isinstance(n.op, ast.Mod) and is_rounded_int(n.left)]
+            if len(mods) == 1 and not any(isinstance(n, (ast.Name, ast.Call, ast.Attribute)) for n in ast.walk(mods[0].right)):
+                out.append(fdef('dec2hms__wrap', ['k'],
+                                [ast.Assign(targets=[ast.Name(id='wrapped', ctx=ast.Store())],
+                                            value=ast.BinOp(ast.Name(id='k', ctx=ast.Load()), ast.Mod(), copy.deepcopy(mods[0].right))),
+                                 ast.Return(value=ast.Name(id='wrapped', ctx=ast.Load()))]))
+    return out
+
+
+
 def _normalised_module():
     import ast
     import copy
@@ -213,6 +282,7 @@ def _normalised_module():
                 inline_blocks(n)
                 if n.name == 'gcd':
                     gcd_roles(n)
+        new.body += _extra_slices(ast, copy, funcs)
         ast.fix_missing_locations(new)
         text = ast.unparse(new) + "\n"
         ast.parse(text)
@@ -307,6 +377,17 @@ TARGETS = [
     # the formatters: `n = int(round(...))` is outside the whitelist, so `n` becomes the input of the
     # regenerated field arithmetic (Nat).  On a tree without the integer formulation (the pinned one)
     # `n`/`cs` do not exist and the hand model is used instead.
+    # --- deepening round: the non-negative branch of dec2dec, the quantities that are rounded, the RA wrap
+    dict(file=_N, func='dec2dec__pos', mode='real', params={'d0': 'A', 'd1': 'A', 'd2': 'A'},
+         subst={'float(d[0])': 'd0', 'float(d[1])': 'd1', 'float(d[2])': 'd2', 'd[0]': 'd0', 'd[1]': 'd1', 'd[2]': 'd2'},
+         returns='dec2decPos', fallback={'dec2decPos': _fb('dec2decPos', ['d0', 'd1', 'd2'], 'dec2decPosHand')},
+         all_params=['d0', 'd1', 'd2']),
+    dict(file=_N, func='dec2dms__scaled', mode='real', params={'x': 'A'}, subst={'float(x)': 'x'},
+         returns='dmsScaled', fallback={'dmsScaled': _fb('dmsScaled', ['x'], 'dmsScaledHand')}, all_params=['x']),
+    dict(file=_N, func='dec2hms__scaled', mode='real', params={'x': 'A'}, subst={'float(x)': 'x'},
+         returns='hmsScaled', fallback={'hmsScaled': _fb('hmsScaled', ['x'], 'hmsScaledHand')}, all_params=['x']),
+    dict(file=_N, func='dec2hms__wrap', mode='int', params={'k': 'Z'}, returns='hmsWrapZ',
+         fallback={'hmsWrapZ': 'def hmsWrapZ (k : Int) : Int := Aegean.Model.C17.hmsWrapZHand k'}, all_params=['k']),
     # one target per printed field, so that a field whose variable disappears in a refactor falls back alone
     dict(file=_N, func='dec2dms', mode='int', params={}, outputs=[('d', 'dmsD')],
          fallback={'dmsD': _fb('dmsD', ['n'], 'fldHi', 'Nat')}),
